@@ -20,6 +20,9 @@ def register(w):
         c.mod(H)
         c.req("forall[int](lambda i: implies(0 <= i and i < len(states_to_exit), states_to_exit[i] != None))")
         c.req(f"forall[Node](lambda n: implies(n in {A}, n != None))")
+        HWF = f"forall[str, int](lambda k, i: implies(k in {H} and 0 <= i and i < len({H}[k]), {H}[k][i] != None))"
+        c.req(HWF)
+        c.ens(HWF, label="history-holds-states")
         REC = f"(s != None and on_exit_path(states_to_exit, s) and has_history_child(s) and exists[Node](lambda m: m in {A} and m != s and anc(m, s)))"
         c.ens(f"forall[Node](lambda s: implies({REC}, s.id in {H} and forall[Node](lambda n: (n in {H}[s.id]) == (n in {A} and n != s and anc(n, s)))))",
               label="records-exactly-the-active-proper-descendants")
@@ -54,7 +57,7 @@ def register(w):
             "forall[Node](lambda a: (a in candidates) == (exists[int](lambda j: 0 <= j and j < _i0 and anc(_seq0[j], a)) or (anc(node, a) and not anc(current, a))))",
         ], decreases="ite(current != None, current.depth + 1, 0)")
         c.loop(2, inv=[
-            CANDS,
+            CANDS, HWF,
             f"forall[Node](lambda s: implies({DONE} and {RECP}, s.id in {H} and forall[Node](lambda n: (n in {H}[s.id]) == (n in {A} and n != s and anc(n, s)))))",
             f"forall[Node](lambda s: implies({DONE} and {RECP}, forall[int, int](lambda i, j: implies(0 <= i and i < j and j < len({H}[s.id]), "
             f"{H}[s.id][i].depth < {H}[s.id][j].depth or ({H}[s.id][i].depth == {H}[s.id][j].depth and ({H}[s.id][i].id < {H}[s.id][j].id or {H}[s.id][i].id == {H}[s.id][j].id))))))",
